@@ -16,7 +16,7 @@ import (
 func (c *Ctx) ruleHoldTimeMin() {
 	r := c.R
 	rule := "E6.holdtime-min"
-	r.Rule(rule, "the negotiated hold time is the smaller operand of the comparison that guards its store (min shape), and the keepalive interval is a third of it exactly when it is smaller than the configured hold time", 2)
+	r.Rule(rule, "the negotiated hold time is the smaller operand of the comparison that guards its store (min shape), and the keepalive interval is a third of it exactly when it is smaller than the configured hold time (the guard compares the negotiated value with Timers.Config.HoldTime itself)", 2)
 	fn := c.P.Func("(*pkg/server.fsm).stateChange")
 	if fn == nil {
 		r.Undec(rule, "-", "anchor:stateChange", "-", "not found")
@@ -111,7 +111,7 @@ func (c *Ctx) ruleHoldTimeMin() {
 						continue
 					}
 					cmp, ok := iff.Cond.(*ssa.BinOp)
-					if ok && cmp.Op == token.LSS && fieldLoadName(cmp.X) == "NegotiatedHoldTime" && edgeDominates(g, 0, b) {
+					if ok && cmp.Op == token.LSS && fieldLoadName(cmp.X) == "NegotiatedHoldTime" && edgeDominates(g, 0, b) && isConfiguredHoldTime(cmp.Y) {
 						ok3 = true
 					}
 				}
@@ -123,6 +123,29 @@ func (c *Ctx) ruleHoldTimeMin() {
 	} else {
 		r.Bad(rule, fk, "keepalive = negotiated/3 under negotiated < configured", c.P.Pos(fn.Pos()), "the keepalive interval is no longer a third of the negotiated hold time under that guard")
 	}
+}
+
+// isConfiguredHoldTime: v is (a copy of) Timers.Config.HoldTime — the field HoldTime of a TimersConfig.
+func isConfiguredHoldTime(v ssa.Value) bool {
+	v = stripConv(v)
+	if ph, ok := v.(*ssa.Phi); ok {
+		for _, e := range ph.Edges {
+			if !isConfiguredHoldTime(e) {
+				return false
+			}
+		}
+		return len(ph.Edges) > 0
+	}
+	u, ok := v.(*ssa.UnOp)
+	if !ok {
+		return false
+	}
+	fa, ok := u.X.(*ssa.FieldAddr)
+	if !ok || fieldOfName(fa) != "HoldTime" {
+		return false
+	}
+	n := ir.NamedOf(ir.Deref(fa.X.Type()))
+	return n != nil && n.Obj().Name() == "TimersConfig"
 }
 
 // ruleFamilyIntersection: negotiated[f] is only written for f taken from the local map and present in the remote map,
